@@ -121,7 +121,62 @@ DiagRays ==
     {<<o[1], o[2], o[3], d[1], d[2], d[3], 0, 4 * Span, 1>> :
         o \in {p \in QP : \A i \in 1..3 : p[i] \in {QMin, QMax}},
         d \in {<<1, 1, 0>>, <<1, 1, 1>>, <<-1, 1, 1>>, <<1, -1, 0>>, <<-1, -1, -1>>, <<2, 1, 0>>}}
-Grid == [qpts |-> SetToSeq(QP), ranges |-> SetToSeq(Ranges), rays |-> SetToSeq(AxisRays \cup InnerRays \cup DiagRays)]
+\* ---- round 5: VALUE CLASSES of the real-valued query parameters ----
+\* Every query tuple is printed with two more integers <<.., zs, tw>> (ranges: <<.., zs, rc, tw>>):
+\*   zs  bit mask of the components whose lattice value 0 stands for NEGATIVE ZERO (bit i-1 = component i of
+\*       the tuple: qpts x,y,z; ranges x,y,z; rays ox,oy,oz,dx,dy,dz). -0 = +0 as reals: the query is the
+\*       same query, so facts and answers must be those of the twin
+\*   rc  (ranges) radius class: 0 = rn/rd, 1 = huge (1e300: every element), 2 = rn/rd + the smallest subnormal
+\*   tw  position (1-based, in the same list) of the TWIN: the same query written with +0 / class 0; 0 = none
+\* The base queries come first (in SetToSeq order), the class variants follow and name their base.
+Pow2(k) == IF k = 0 THEN 1 ELSE IF k = 1 THEN 2 ELSE IF k = 2 THEN 4 ELSE IF k = 3 THEN 8 ELSE IF k = 4 THEN 16 ELSE 32
+RECURSIVE MaskOf(_)
+MaskOf(S) == IF S = {} THEN 0 ELSE LET i == CHOOSE j \in S : TRUE IN Pow2(i - 1) + MaskOf(S \ {i})
+Zeros(t, dom) == {i \in dom : t[i] = 0}
+\* which zero components are made negative: the direction's, everything, the first direction component alone
+RayMasks(r, many) ==
+    LET zd == Zeros(r, 4..6)  zo == Zeros(r, 1..3)
+        all == {zd} \cup (IF many THEN {zo \cup zd, {CHOOSE i \in zd : \A j \in zd : i <= j}} ELSE {})
+    IN {MaskOf(m) : m \in all \ {{}}}
+PtMasks(p) == LET z == Zeros(p, 1..3) IN {MaskOf(m) : m \in {z, {CHOOSE i \in z : \A j \in z : i >= j}}}
+
+BaseRays == SetToSeq(AxisRays \cup InnerRays \cup DiagRays)
+\* base rays that get variants: every ray from a lattice point (all masks), the rays entering through one of
+\* the six faces (travelling along -y) and the diagonal rays with a zero component (direction zeros only)
+RayVarOf(i) ==
+    LET r == BaseRays[i]
+    IN IF r \in InnerRays /\ r[7] = 0 THEN RayMasks(r, TRUE)
+       ELSE IF r \in DiagRays \/ (r \in AxisRays /\ r[5] = -1) THEN RayMasks(r, FALSE)
+       ELSE {}
+RayVars == SetToSeq(UNION {{<<i, m>> : m \in RayVarOf(i)} : i \in DOMAIN BaseRays})
+AllRays == [i \in DOMAIN BaseRays |-> BaseRays[i] \o <<0, 0>>]
+           \o [j \in DOMAIN RayVars |-> BaseRays[RayVars[j][1]] \o <<RayVars[j][2], RayVars[j][1]>>]
+
+BasePts == SetToSeq(QP)
+\* query points with at least two zero coordinates get variants
+PtVars == SetToSeq(UNION {{<<i, m>> : m \in IF Cardinality(Zeros(BasePts[i], 1..3)) >= 2 THEN PtMasks(BasePts[i]) ELSE {}} :
+                            i \in DOMAIN BasePts})
+AllPts == [i \in DOMAIN BasePts |-> BasePts[i] \o <<0, 0>>]
+          \o [j \in DOMAIN PtVars |-> BasePts[PtVars[j][1]] \o <<PtVars[j][2], PtVars[j][1]>>]
+
+BaseRanges == SetToSeq(Ranges)
+\* <<zs, rc>> variants of a range query: negative zeros of a centre with zeros; the huge radius and the
+\* subnormal radius for the queries centred on lattice points
+RangeVarOf(i) ==
+    LET q == BaseRanges[i]
+        z == Zeros(q, 1..3)
+        onLat == <<q[1], q[2], q[3]>> \in P3
+    IN (IF onLat /\ z # {} THEN {<<MaskOf(z), 0>>} ELSE {})
+       \cup (IF onLat /\ q[4] = 0 THEN {<<0, 2>>, <<MaskOf(z), 2>>} ELSE {})
+       \cup (IF onLat /\ q[4] = 2 THEN {<<0, 1>>} ELSE {})
+RangeVars == SetToSeq(UNION {{<<i, v>> : v \in RangeVarOf(i)} : i \in DOMAIN BaseRanges})
+\* the twin of a class variant is the base query; a huge radius has no twin (its answer is: every element)
+AllRanges == [i \in DOMAIN BaseRanges |-> BaseRanges[i] \o <<0, 0, 0>>]
+             \o [j \in DOMAIN RangeVars |->
+                   LET i == RangeVars[j][1]  v == RangeVars[j][2]
+                   IN BaseRanges[i] \o <<v[1], v[2], IF v[2] = 1 THEN 0 ELSE i>>]
+
+Grid == [qpts |-> AllPts, ranges |-> AllRanges, rays |-> AllRays]
 
 Emit == IF pts = <<>> THEN PrintT(ToJson([grid |-> Grid, depths |-> SetToSeq(AllDepths)]))
         ELSE Cases = {} \/ PrintT(ToJson([cases |-> SetToSeq(Cases)]))
